@@ -167,7 +167,10 @@ func parseHeaders(h *protocol.ResponseHeader, buf []byte) (int, error) {
 						h.SetConnectionClose(true)
 					} else {
 						// "Close", "close, TE": the option in another spelling or among others
-						h.SetConnectionClose(ext.HasCloseOption(s.Value))
+						// (set only: several Connection lines are one list)
+						if ext.HasCloseOption(s.Value) {
+							h.SetConnectionClose(true)
+						}
 						h.AddArgBytes(s.Key, s.Value, protocol.ArgsHasValue)
 					}
 					continue
